@@ -50,3 +50,7 @@ def run(tier, seed, fold):
     tmp = os.path.join(driver.WORK, "tmp")
     os.makedirs(tmp, exist_ok=True)
     driver.standard_run(SPEC, tier, seed, fold, run_kw={"env": {"TMPDIR": tmp}})
+    if tier == "thorough":
+        # the same enumeration under AddressSanitizer + LeakSanitizer with an instrumented bundled
+        # SQLite: error / rollback paths through the rusqlite FFI surface
+        driver.sanitizer_run(SPEC, "asan", tier, seed, fold, shards=12, budget_s=420)
